@@ -39,6 +39,8 @@ def seeds():
         r = res.get(name, {})
         own = r.get(m["property"], {})
         key = (own.get("keys") or ["?"])[0] if own.get("rc") == 1 else ("**MISSED**" if own else "not run")
+        if m.get("detect") is False and own.get("rc") != 1:
+            key = "not detected - documented limit"
         others = sorted(p for p, v in r.items() if v.get("rc") == 1 and p != m["property"])
         out.append("| %s | %s | %s | %s | `%s` | %s |" % (name.split("-")[0], m["property"], m["change"].replace("|", "\\|"), m["needs_to_manifest"].replace("|", "\\|"), key, ", ".join(others) or "–"))
     return "\n".join(out)
